@@ -5,6 +5,7 @@ import (
 	"fmt"
 	"sort"
 	"strconv"
+	"time"
 
 	"github.com/olric-data/olric"
 	"github.com/olric-data/olric/stats"
@@ -42,6 +43,22 @@ func partStats(in map[stats.PartitionID]stats.Partition) map[uint64]plan.PartSta
 
 // Snapshot collects every member's view of membership and routing.
 func (r *Run) Snapshot(withClient bool) *plan.Snapshot {
+	// The collection is not atomic: repeat it until no member's routing view changed meanwhile.
+	var s *plan.Snapshot
+	for try := 0; try < 8; try++ {
+		before := r.routingReport()
+		s = r.snapshotOnce(withClient)
+		if r.routingReport() == before {
+			return s
+		}
+		r.K.Count("probe.snapshot_retry", 1)
+		time.Sleep(300 * time.Millisecond)
+	}
+	s.Stable, s.Why = false, "routing views kept changing during snapshot collection"
+	return s
+}
+
+func (r *Run) snapshotOnce(withClient bool) *plan.Snapshot {
 	ctx := context.Background()
 	s := &plan.Snapshot{AtNs: int64(r.K.Now())}
 	s.Stable, s.Why = r.C.Stable()
